@@ -423,6 +423,12 @@ def build_program_cases(seed, i, tier):
         for m in range(sp.k):
             own = [it.name for it in prog.items if sp.assign[it.name] == m]
             rng.shuffle(own)
+            empties = [n for n in own if prog.by_name[n].kind == "fn" and prog.by_name[n].body.endswith("{\n}\n")]
+            if empties and rng.random() < 0.5:
+                # a function with a parameter and an empty body as the last thing the module defines
+                e = rng.choice(empties)
+                own.remove(e)
+                own.append(e)
             item_order[str(m)] = own
         files = pngen.ordered_file_map(sp, item_order)
         structure = pngen.split_to_json(sp, item_order)
@@ -506,8 +512,23 @@ def run_program(args):
     stats["runs"] = 1
     p = parse_run(r)
     if p["verdict"] != "ok":
+        # The generator's programs are valid by construction (0 rejected on the
+        # pinned tree). If the compiler under test rejects the unsplit program,
+        # "the split program behaves exactly like the single-file program" is
+        # still decidable: an accepted split differs from a rejected original.
         res["generator_invalid"] = {"verdict": p["verdict"], "detail": (p.get("stderr") or p.get("detail") or "")[:800],
                                     "single": built["single"]}
+        if p["verdict"] == "rejected":
+            for ci, case in enumerate(built["cases"][:1]):
+                wd = os.path.join(wd_root, "c%d" % ci)
+                fresh_dir(wd)
+                write_files(wd, case.files)
+                q = parse_run(penne_run(wd, case.orders[0], case.entropies[0]))
+                stats["runs"] = stats.get("runs", 0) + 1
+                if q["verdict"] == "ok":
+                    res["violations"].append({"class": "split_behaviour_mismatch", "kind": "case", "case": case.to_json(),
+                                              "detail": "the unsplit program is rejected (%s) but the split program, order %s, is accepted and runs" %
+                                              (p.get("codes"), case.orders[0])})
         shutil.rmtree(wd_root, ignore_errors=True)
         return res
     ref = behaviour(p)
@@ -666,6 +687,8 @@ def run(tier, seed):
     for res in results:
         if res["generator_invalid"]:
             gen_invalid.append(res)
+            for v in res["violations"]:
+                raw.append((v, res["i"]))
             continue
         behaviours.add(res["behaviour"])
         for s in res["shape"]:
@@ -693,7 +716,7 @@ def run(tier, seed):
         else:
             rest.append(finding_from(v, i, seed, minimise=False))
     findings = parallel_map(_minimise_job, jobs) + rest
-    if len(gen_invalid) > max(2, len(results) // 50):
+    if len(gen_invalid) > max(2, len(results) // 50) and not raw:
         g = gen_invalid[0]["generator_invalid"]
         raise HarnessError("generator produced %d invalid programs of %d, e.g. %s" % (len(gen_invalid), len(results), g["detail"][:600]))
     n_viol, n_known = report_findings(PROP, findings)
